@@ -364,10 +364,17 @@ class Case:
             hn, obj, bi = target[0], self.handles[target[0]], target[1]
         self.ops.append(f"move {hn} {bi}")
         before = self.values(obj)
+        # an object that is the current NESTED (non-reference) part of another live object, or the referent of a live reference field
+        holders = [n2 for n2, o2 in self.insts() if o2 is not obj and self.reaches(o2, obj)]
+        has_ref = self.has_refs(self.U.cls_index(obj))
         try:
             obj.move(_buffer=self.bufs[bi])
             self.exp.append("ok")
             self.tags["move.ok"] += 1
+            if holders:
+                self.fail("C18:nested-or-referenced-object-moved", f"{hn}.move(_buffer={bi}) was accepted although {hn} is part of / referred to by {holders[:3]}")
+            if has_ref:
+                self.fail("C18:object-with-references-moved", f"{hn}.move(_buffer={bi}) was accepted although its class contains references")
             if self.values(obj) != before:
                 self.fail("C18:move-changes-value", f"{hn}.move(_buffer={bi}): value {before} became {self.values(obj)}")
             self.check_in_buffer(obj, self.bufs[bi], hn)
@@ -433,6 +440,9 @@ class Case:
         if isinstance(v, dict):
             return {k: self.strip(x) for k, x in v.items()}
         return v
+
+    def has_refs(self, ci, depth=0):
+        return any(k == "R" or (k == "N" and depth < 4 and self.has_refs(c, depth + 1)) for _n, k, c in self.U.spec[ci][0])
 
     def reaches(self, root, obj, depth=0):
         """is `obj` the current value of an attribute somewhere inside `root`?"""
